@@ -5,6 +5,19 @@ THEOREMS = {
         "modules": ["Abnf.Theorems.C01"],
         "theorems": ["Abnf.C01.reported_end_is_derivable"],
     },
+    "C02": {
+        "modules": ["Abnf.Theorems.C02"],
+        "theorems": ["Abnf.C02.parse_returns_longest", "Abnf.C02.parse_fails_iff_no_match", "Abnf.C02.parse_all_spec"],
+    },
+    "C03": {
+        "modules": ["Abnf.Theorems.C03"],
+        "theorems": ["Abnf.C03.listed_tree_is_faithful_derivation", "Abnf.C03.parse_tree_is_faithful_derivation",
+                     "Abnf.C03.node_value_is_concatenation", "Abnf.C03.derivation_is_faithful"],
+    },
+    "C07": {
+        "modules": ["Abnf.Theorems.C07"],
+        "theorems": ["Abnf.C07.parse_order_independent", "Abnf.C07.parse_all_order_independent", "Abnf.C07.listed_ends_distinct"],
+    },
     "C18": {
         "modules": ["Abnf.Theorems.C18"],
         "theorems": ["Abnf.C18.dispatch_present", "Abnf.C18.dispatch_absent", "Abnf.C18.leaf_dispatches_on_literal",
